@@ -403,6 +403,7 @@ var BubbleHorizon = 6 * time.Hour
 // after BubbleHorizon of virtual time: leak then starts with "hang:"), and pan != nil if f panicked.
 func Bubble(t *testing.T, f func()) (leak string, pan any) {
 	hung := false
+	var bodyPanic any
 	defer func() {
 		if r := recover(); r != nil {
 			s := fmt.Sprint(r)
@@ -411,9 +412,13 @@ func Bubble(t *testing.T, f func()) (leak string, pan any) {
 				if hung {
 					leak = fmt.Sprintf("hang: the body was still blocked after %v of virtual time (%s)", BubbleHorizon, s)
 				}
-				return
+			} else {
+				pan = r
 			}
-			pan = r
+		}
+		if bodyPanic != nil {
+			// the body's own panic is what matters; goroutines it left behind are a consequence
+			pan, leak = bodyPanic, ""
 		}
 	}()
 	synctest.Test(t, func(t *testing.T) {
@@ -437,7 +442,8 @@ func Bubble(t *testing.T, f func()) (leak string, pan any) {
 		case r := <-done:
 			tm.Stop()
 			if r.p != nil {
-				panic(fmt.Sprintf("%v\n%s", r.p, r.stack))
+				// (a panic raised here, in the bubble's test goroutine, could not be recovered by anybody)
+				bodyPanic = fmt.Sprintf("%v\n%s", r.p, r.stack)
 			}
 		case <-tm.C:
 			hung = true
